@@ -188,6 +188,7 @@ class WSStream:
         self.closed = False
         self.config = config
         self.context = context
+        self.remote_close_code: Optional[int] = None
         self.task_group = task_group
         self.response: WebsocketResponseStartEvent
         self.scope: WebsocketScope
@@ -253,6 +254,8 @@ class WSStream:
             if self.app_put is not None:
                 if self.state in {ASGIWebsocketState.HTTPCLOSED, ASGIWebsocketState.CLOSED}:
                     code = CloseReason.NORMAL_CLOSURE.value
+                elif self.remote_close_code is not None:
+                    code = self.remote_close_code
                 else:
                     code = CloseReason.ABNORMAL_CLOSURE.value
                 await self.app_put({"type": "websocket.disconnect", "code": code})
@@ -333,6 +336,8 @@ class WSStream:
                 await self._send_wsproto_event(event.response())
             elif isinstance(event, CloseConnection):
                 if self.connection.state == ConnectionState.REMOTE_CLOSING:
+                    # The client has initiated the close, tell the app why
+                    self.remote_close_code = int(event.code)
                     await self._send_wsproto_event(event.response())
                 await self.send(StreamClosed(stream_id=self.stream_id))
 
